@@ -541,6 +541,29 @@ def _exec_cli(sc, ini, out):
     else:
         rec["file"] = None
     out["cli"] = rec
+    if sc.get("second_parser"):
+        # a later, plain invocation in the same process must not be affected by the edits above
+        out2_path = os.path.join(scratch, "table2.out")
+        old = (sys.argv, sys.stdout, sys.stderr)
+        sys.argv = ["potable", in_path, out2_path]
+        sys.stdout = io.StringIO()
+        sys.stderr = io.StringIO()
+        r2 = {"ok": False}
+        try:
+            potable.main()
+        except SystemExit as e:
+            code = e.code if isinstance(e.code, int) else (0 if e.code is None else 1)
+            if code == 0 and os.path.exists(out2_path):
+                with open(out2_path, "rb") as f:
+                    b = f.read()
+                r2 = {"ok": True, "sha": sha(b), "len": len(b), "head": b[:100].decode("utf-8", "replace")}
+            else:
+                r2 = {"ok": False, "exc": "SystemExit", "cfg": "configuration error" in sys.stderr.getvalue(), "msg": sys.stderr.getvalue()[-160:]}
+        except Exception as e:
+            r2 = _exc(e)
+        finally:
+            sys.argv, sys.stdout, sys.stderr = old
+        out["second_cli"] = r2
 
 
 # ----------------------------------------------------------------------------------------------
@@ -654,6 +677,11 @@ def judge(sc, ref, res):
                         kind = _list_diff_kind(lines, want)
                         v.append({"class": "C14/query-output-differs/action=%s/%s" % (action, kind),
                                   "detail": "potable %s printed %r; the edited file holds %r" % (action, _diff(sorted(lines), sorted(want)), "")})
+    if sc.get("second_parser") and "second_cli" in res:
+        a, b = res["second_cli"], ref["unedited"]
+        if (a.get("ok"), a.get("sha")) != (b.get("ok"), b.get("sha")) or (not a.get("ok") and bool(a.get("cfg")) != bool(b.get("cfg"))):
+            v.append({"class": "C14/later-invocation-affected-by-edits/route=cli",
+                      "detail": "a plain potable run afterwards in the same process gave %s; the unedited file gives %s" % (_r(a), _r(b))})
     if sc.get("second_parser") and "second" in res:
         a, b = res["second"], ref["unedited"]
         if (a.get("ok"), a.get("sha"), a.get("exc")) != (b.get("ok"), b.get("sha"), b.get("exc")):
